@@ -280,7 +280,11 @@ class World(object):
     def do_store(m, t, via=None):
       vcount[0] += 1
       v = float(vcount[0])
-      rec = dict(call=tick(), metric=m, ts=t, value=v, refused=False, idx=len(h.stores))
+      sent = m
+      if via is not None or getattr(self, 'store_through_pipeline', False):
+        from vlib.refs import tags as _reft
+        m = _reft.canonical(m)        # the pipeline files a series under its canonical name, however it was spelled
+      rec = dict(call=tick(), metric=m, ts=t, value=v, refused=False, idx=len(h.stores), sent=sent)
       h.stores.append(rec)
       self.cur_store[0] = rec
       nsig = len(self.signals)
@@ -290,7 +294,9 @@ class World(object):
         rec['wstate0'] = sc.threads[1].state
       try:
         if via is not None:
-          via.dataReceived(('%s %r %r\n' % (m, v, t)).encode())
+          via.dataReceived(('%s %r %r\n' % (sent, v, t)).encode())
+        elif getattr(self, 'store_through_pipeline', False):
+          self.events.metricReceived(sent, (t, v))      # the datapoint enters the daemon's pipeline as a receiver hands it over
         else:
           cache.store(m, (t, v))
       except S.Abort:
